@@ -338,6 +338,16 @@ func TestVerifDriver(t *testing.T) {
 				b = b[:r.Intn(len(b)+1)]
 			}
 			dec(string(b))
+			// every single-bit flip of a valid string (bytes one bit away from charset characters: control bytes, other case, ...)
+			if k%vEnvInt("VERIF_FLIPEVERY", 6) == 0 && len(s) <= 40 {
+				for i := 0; i < len(s); i++ {
+					for bit := uint(0); bit < 8; bit++ {
+						m := []byte(s)
+						m[i] ^= 1 << bit
+						dec(string(m))
+					}
+				}
+			}
 			// random bytes
 			if k%4 == 0 {
 				rb := make([]byte, r.Intn(100))
